@@ -4,6 +4,7 @@ package harness
 // call; every outcome is judged by the trace specification.
 
 import (
+	"math"
 	"math/rand"
 )
 
@@ -156,7 +157,11 @@ func driveAppend(s *shardSet, rng *rand.Rand, thorough bool) ([]string, map[stri
 							case 0:
 								w.Alloc(ty, ch, sl, sl+rng.Intn(2))
 								src = len(w.Views) - 1
-								w.Write(src, KindOf(ty), w.stamps(ch*sl))
+								if isFloatTy(ty) {
+									w.WriteFloats(src, w.floatsFor(rng, ch*sl)) // -0, NaN, Inf, subnormal among the samples
+								} else {
+									w.Write(src, KindOf(ty), w.stamps(ch*sl))
+								}
 							case 1:
 								src = dst
 							case 2:
@@ -187,6 +192,12 @@ func driveAppend(s *shardSet, rng *rand.Rand, thorough bool) ([]string, map[stri
 								}
 							}
 							w.AppendSample(dst, w.NextStamp())
+							if isFloatTy(ty) {
+								w.AppendSampleFloat(dst, oddFloats[rng.Intn(len(oddFloats))])
+								if l := w.Views[dst].Len(); l > 0 {
+									w.SetSampleFloat(dst, rng.Intn(l), oddFloats[rng.Intn(len(oddFloats))])
+								}
+							}
 						}
 					}
 				}
@@ -227,7 +238,15 @@ func driveAppendSample(s *shardSet, rng *rand.Rand, thorough bool) ([]string, ma
 					}
 					calls := w.Views[win].Cap() - w.Views[win].Len() + 3 + rng.Intn(4)
 					for i := 0; i < calls; i++ {
-						w.AppendSample(win, w.NextStamp())
+						if isFloatTy(ty) && i%2 == 0 {
+							w.AppendSampleFloat(win, oddFloats[(i/2+k)%len(oddFloats)])
+						} else {
+							w.AppendSample(win, w.NextStamp())
+						}
+					}
+					if isFloatTy(ty) && w.Views[root].Len() > 0 { // +0 over -0 and back, through the alias
+						w.SetSampleFloat(root, 0, math.Copysign(0, -1))
+						w.SetSampleFloat(root, 0, 0)
 					}
 					// a window that ends before the root's end: sample appends write into the frames after it
 					if ch > 0 && k >= 2 {
